@@ -22,7 +22,7 @@ PROBE = textwrap.dedent(
     m.run_refurb(Settings(files=["f.py"], quiet=True))
     # what would a noqa lookup for stale.py see now?
     seen = m.get_source_lines("stale.py")
-    json.dump({"fresh_after_run": seen == ["x = 1  # changed"], "cached": cached}, open("_out.json", "w"))
+    json.dump({"fresh_after_run": bool(seen) and seen[0] == "x = 1  # changed", "cached": cached}, open("_out.json", "w"))
     """
 )
 
